@@ -5,6 +5,7 @@ import (
 	"go/constant"
 	"go/token"
 	"go/types"
+	"golang.org/x/tools/go/packages"
 	"os"
 	"sort"
 	"strings"
@@ -59,6 +60,7 @@ func c14(c *Ctx) {
 			c14Stop(c, ix, m)
 			c14HTTP(c, ix, m)
 		} else {
+			c14StopCtx(c, ix, m)
 			c14GRPC(c, ix, m)
 		}
 		rx := c.Index(m.dir, m.pkg+"/internal/retry")
@@ -1368,4 +1370,59 @@ func c14PooledBody(c *Ctx, ix *PkgIndex, m otlpMod) {
 	c.Analysed(fn)
 	c.Check(bad == "", "R6", short(m)+"|newRequest|request body does not alias pooled memory", at(ix.M, fn.Pos()), itoa(len(pooled))+" pooled object(s), none exposes its bytes",
 		"the body handed to the request is a view of a pooled buffer ("+bad+"): after newRequest returns the buffer is reused by other exports while this request may still be retried with it")
+}
+
+// lookupFieldQuiet: like lookupField, for a field that only some of the sibling packages have.
+func lookupFieldQuiet(p *packages.Package, typ, name string) *types.Var {
+	n := lookupType(p, typ)
+	if n == nil {
+		return nil
+	}
+	st, ok := n.Underlying().(*types.Struct)
+	if !ok {
+		return nil
+	}
+	for i := 0; i < st.NumFields(); i++ {
+		if st.Field(i).Name() == name {
+			return st.Field(i)
+		}
+	}
+	return nil
+}
+
+// c14StopCtx: see the comment inside.
+func c14StopCtx(c *Ctx, ix *PkgIndex, m otlpMod) {
+	info := ix.Pkg.TypesInfo
+	// a client that interrupts exports through a stop context: every context exportContext hands out is tied to it — each path
+	// from entry to a return passes the construct that mentions stopCtx (the watcher goroutine, context.AfterFunc …), whatever
+	// the timeout configuration
+	if fSC := lookupFieldQuiet(ix.Pkg, "client", "stopCtx"); fSC != nil {
+		if fn := ix.Func("(*client).exportContext"); fn != nil {
+			g := ix.FG(fn)
+			links := map[*GNode]bool{}
+			for _, x := range g.Nodes {
+				if x.N == nil {
+					continue
+				}
+				hit := false
+				ast.Inspect(x.N, func(n ast.Node) bool {
+					if e, ok := n.(ast.Expr); ok && isField(info, e, fSC) {
+						hit = true
+					}
+					return true
+				})
+				if hit {
+					links[x] = true
+				}
+			}
+			key := shortPkg(ix.Pkg.PkgPath) + "|(*client).exportContext|every context handed out is tied to the stop context"
+			if len(links) == 0 {
+				c.Violation("R5", key, at(ix.M, fn.Pos()), "exportContext no longer refers to stopCtx: Shutdown cannot interrupt an export that is in flight or waiting to retry")
+			} else {
+				seen, par := g.ReachFromEntry(func(y *GNode) bool { return links[y] }, nil)
+				c.Check(!seen[g.Exit], "R5", key, at(ix.M, fn.Pos()), "no return before the link to stopCtx",
+					"a path returns the export context without tying it to stopCtx ("+g.pathLines(par, g.Exit)+"): with that configuration a Shutdown whose deadline expires does not interrupt the export, which keeps blocking or retrying (forever with MaxElapsedTime 0)")
+			}
+		}
+	}
 }
